@@ -77,4 +77,15 @@ Atoms == { Fn(op, <<Col(0), l>>) : op \in {"gt", "gt_eq", "lt", "lt_eq", "eq", "
          \cup { Fn("in_list", <<Col(0), [list |-> l]>>) : l \in { <<PV("int", 2)>>, <<PV("int", 0), PV("int", 4)>>, <<PV("float", 2), PV("float", 3)>>, <<PV("int", 1), PV("float", 2)>> } }
          \cup { Fn("in_list", <<Col(1), [list |-> <<PV("int", 1), PV("int", 3)>>]>>) }
 Predicates == Atoms \cup { Fn(op, <<p, r>>) : op \in {"and", "or"}, p \in Atoms, r \in Atoms } \cup { Fn("not", <<p>>) : p \in Atoms }
+(* ---- projections of a UNIQUE column (C14): which expressions keep the constraint ---------------- *)
+\* one column, every unary function and chains of two (the library keeps UNIQUE through the functions it lists
+\* as one-to-one: is_bijection); column types are value sets and intervals, so that distinct inputs abound
+Chain == {"opposite", "abs", "exp", "floor", "ceil", "sign", "sqrt", "cast_as_text", "cast_as_float", "cast_as_integer", "sin", "ln"}
+UniqueCases ==
+       { Case(Fn(f, <<Col(0)>>), <<a>>) : f \in UnaryNum, a \in NumTypes }
+  \cup { Case(Fn(f, <<Fn(g, <<Col(0)>>)>>), <<a>>) : f \in Chain, g \in Chain, a \in CoreTypes }
+  \cup { Case(Fn(f, <<Col(0)>>), <<a>>) : f \in UnaryText, a \in TextTypes }
+  \cup { Case(Fn(f, <<Col(0)>>), <<a>>) : f \in UnaryDate, a \in DateTypes }
+  \cup { Case(Fn(f, <<Col(0)>>), <<a>>) : f \in UnaryBool, a \in BoolTypes }
+  \cup { Case(Fn(f, <<Col(0), l>>), <<a>>) : f \in {"plus", "minus", "multiply", "divide", "modulo", "least", "greatest"}, l \in {LitI(0), LitI(2)}, a \in CoreTypes }
 =============================================================================
